@@ -77,6 +77,26 @@ def run(ctx):
         ok = v["name"] in handled or v["name"] == "Output"
         ctx.inst("C04.R1", "recurses-into=Expr::%s" % v["name"], ok,
                  "variant has an expression child; explicit arm: %s%s" % (v["name"] in handled, " (output declarations cannot occur inside a function body: grammar `statement` only)" if v["name"] == "Output" else ""), H.loc(hcf["body"]))
+    # ... and into every expression-typed FIELD of the variant: a merged arm `Access { expr, .. } | DotAccess { expr, .. }` skips `index`
+    vfields = {v["name"]: [f["name"] for f in v["fields"] if ("ast::Expr" in f["ty"] or "ast::RecordEntry" in f["ty"])] for v in expr_t["variants"]}
+    for a in m[0]["arms"]:
+        alts = a["pat"]["pats"] if H.kind(a["pat"]) == "Or" else [a["pat"]]
+        used = {x["res"].get("local") for x in H.walk(a["body"]) if H.kind(x) == "Path" and x["res"].get("local") is not None}
+        for alt in alts:
+            q = alt
+            while H.kind(q) == "Ref":
+                q = q["pat"]
+            if H.kind(q) not in ("Struct", "TupleStruct") or "ast::Expr::" not in (q["res"].get("def") or ""):
+                continue
+            vname = H.last(q["res"]["def"])
+            if H.kind(q) == "Struct":
+                bound = {f["name"]: (H.pat_binds(f["pat"]) or [None])[0] for f in q["fields"]}
+            else:
+                bound = {str(i_): (H.pat_binds(p_) or [None])[0] for i_, p_ in enumerate(q["pats"])}
+            for fld in vfields.get(vname, []):
+                b_ = bound.get(fld)
+                ctx.inst("C04.R1", "recurses-into=Expr::%s.%s" % (vname, fld), b_ is not None and b_ in used,
+                         "expression child `%s` of %s is %s" % (fld, vname, "bound and visited" if (b_ is not None and b_ in used) else "not visited by this arm (its free variables are never captured)"), H.loc(a["body"]))
     mk = H.matches_on(hcf["body"], "ast::RecordKey")
     handled_k = set()
     for mm in mk:
